@@ -121,12 +121,31 @@ def case(spec):
         # index records that lose their height (stale siblings sorting before the active block, failed blocks) stored as the
         # last block of a file, header-only records: they must not keep a file open (nor get delivered)
         ncomp = layouts.add_harmless_competitors(lrng, chain, coin, kw, count=max(3, len(kw["order"]) // 2))
+    finfo = 0
+    if spec["n"] % 4 in (0, 1):
+        # Bitcoin Core's per-file records 'f'+nFile (CBlockFileInfo: nBlocks nSize nUndoSize nHeightFirst nHeightLast nTimeFirst nTimeLast).
+        # Core's nHeightLast counts every block ever written to the file (stale, failed ones too) and is never lowered: it can lie far above
+        # the highest active-chain block of the file. Which blocks are yet to come is decided by the block records alone.
+        from ..ser import core_varint
+        import struct
+        stored = {}
+        for pl in kw["placements"]:
+            stored.setdefault(pl.file, []).append(pl.height)
+        keys = list(kw.get("extra_keys") or [])
+        for fno, hs in stored.items():
+            if fno < 2**31:
+                last = max(hs) + lrng.choice([0, 0, 1, 7, 100000])
+                keys.append((b"f" + struct.pack("<i", fno), core_varint(len(hs)) + core_varint(10000) + core_varint(0) + core_varint(min(hs)) + core_varint(last)
+                             + core_varint(1500000000) + core_varint(1500009999)))
+                finfo += 1
+        keys.append((b"l", struct.pack("<i", max(f for f in stored if f < 2**31) if any(f < 2**31 for f in stored) else 0)))
+        kw["extra_keys"] = keys
     work = harness.fresh(os.path.join(spec["work"], "c%d" % spec["n"]))
     d = os.path.join(work, "d")
     xor_key = bytes(lrng.randrange(1, 256) for _ in range(8)) if spec["n"] % 3 == 0 else None   # reopened files must keep their key
     datadir.write_datadir(d, COINS[coin], xor_key=xor_key, **kw)
     binary = core.build("release")
-    v, counters, shapes = [], {"runs": 0, "xor_obfuscated_layouts": 1 if xor_key else 0, "losing_index_records": ncomp}, []
+    v, counters, shapes = [], {"runs": 0, "xor_obfuscated_layouts": 1 if xor_key else 0, "losing_index_records": ncomp, "file_info_records": finfo}, []
     nf = desc["files"]
     fclass = "1" if nf == 1 else ("2-9" if nf < 10 else ("10-99" if nf < 100 else "100+"))
     tip = chain[-1][0]
